@@ -207,7 +207,12 @@ def handleC03 (f : List String) : Res :=
     | some text =>
       let r : Res := {}
       -- parser model (AC/PegFull.lean, owned by C07): model parse of the text == impl tree
-      let r := cmp "parse" (P.PegF.showRes (P.PegF.parse text)) T r
+      let mTree := P.PegF.showRes (P.PegF.parse text)
+      let r := cmp "parse" mTree T r
+      -- spec: a tree that is returned must be the one the published grammar assigns to the text. The
+      -- parser model is the PEG semantics of acc.peg (tied by the grammar extraction); `check` ignores
+      -- this clause when acc.peg itself no longer matches its expectation.
+      let r := if T == "err" then r else specIf "tree-as-published-grammar" (mTree == T) r
       -- the composed text-level model == impl load outcome
       let mText := match loadText text with
         | .ok st => showNats st.chain
